@@ -133,6 +133,10 @@ func c09Order(c *h.Ctx, g *gateRig, gc int, ids []string, order []string) bool {
 				time.Sleep(50 * time.Microsecond)
 			}
 			if g.nfires() > base {
+				g.mu.Lock()
+				w["fires_of_this_gate"] = fmt.Sprintf("%+v", g.fires)
+				w["fires_before_this_set_up"] = base
+				g.mu.Unlock()
 				c.Violate("C09/fired-before-all-ready", fmt.Sprintf("callback ran after signals %v although %d of %d participants had not signalled", order[:i+1], len(ids)-len(seen), len(ids)), w)
 				return false
 			}
@@ -736,6 +740,60 @@ func c09Rebuild(c *h.Ctx) {
 	c.Sample(map[string]interface{}{"kind": "gate rebuilt from a saved pending state (JSON round trip)", "generations": gens})
 }
 
+// c09RepeatsThenSetup: a set-up has fired; one participant keeps signalling (repeats: "change nothing") and the next
+// set-up follows at once, while some repeats may still be queued inside the gate. The finished set-up must not fire
+// a second time, and the new one only after all its participants have signalled.
+func c09RepeatsThenSetup(c *h.Ctx) {
+	r := c.R
+	trials := 300
+	if c.Thorough() {
+		trials = 1500
+	}
+	for k := 0; k < trials && !c.Failed(); k++ {
+		g := newGate(0)
+		n := 1 + r.Intn(4)
+		ids := idsN(n, "q")
+		gc := 1000 + 2*k
+		g.m.Setup(gc, partsMap(ids))
+		for _, id := range ids {
+			atomic.AddInt64(&g.issued, 1)
+			g.m.Ready(id)
+		}
+		if !g.waitFires(1, 5*time.Second) {
+			c.Violate("C09/never-fired", "set-up complete but no callback within 5 s", nil)
+			return
+		}
+		reps := 1 + r.Intn(60)
+		for j := 0; j < reps; j++ {
+			g.m.Ready(ids[r.Intn(n)])
+		}
+		ids2 := idsN(1+r.Intn(3), "z")
+		atomic.StoreInt64(&g.issued, 0)
+		g.m.Setup(gc+1, partsMap(ids2))
+		time.Sleep(time.Duration(200+r.Intn(1500)) * time.Microsecond)
+		g.mu.Lock()
+		fs := append([]gateFire{}, g.fires...)
+		g.mu.Unlock()
+		old, nw := 0, 0
+		for _, f := range fs {
+			if f.gc == gc {
+				old++
+			} else {
+				nw++
+			}
+		}
+		if old != 1 || nw != 0 {
+			c.Violate("C09/fired-more-than-once/finished-set-up-fired-again", fmt.Sprintf("set-up %d had fired; %d repeated signals and the next set-up followed at once: %d callbacks for set-up %d, %d for the new one (nobody of which has signalled)", gc, reps, old, gc, nw), map[string]interface{}{"participants": ids, "fires": fmt.Sprintf("%+v", fs)})
+			return
+		}
+	}
+	c.Count("generations", int64(2*trials))
+	c.Feature("repeats-then-next-set-up")
+	c.Nontrivial()
+	c.FP("repeats-then-setup", c.Seed)
+	c.Sample(map[string]interface{}{"kind": "repeated signals after completion followed at once by the next set-up", "trials": trials})
+}
+
 // c09Concurrent: every participant is signalled by its own goroutine (plus duplicates); exactly one callback.
 func c09Concurrent(c *h.Ctx) {
 	r := c.R
@@ -795,7 +853,7 @@ func init() {
 			return map[string]int{"quick": 60, "thorough": 1000}[tier]
 		},
 		RequiredFeatures: func(string) []string {
-			return []string{"orders:exhaustive<=4", "orders:random-5..10", "timeout-path", "supersede-unfinished", "supersede-unfinished-with-timeout", "rebuild-from-saved-state", "rebuild:mixed-ready-state", "concurrent-signals", "re-set-up-right-after-completion", "same-set-up-announced-again", "rebuild:later-set-up-uses-configured-timeout", "rebuild:from-finished-gate"}
+			return []string{"orders:exhaustive<=4", "orders:random-5..10", "timeout-path", "supersede-unfinished", "supersede-unfinished-with-timeout", "rebuild-from-saved-state", "rebuild:mixed-ready-state", "concurrent-signals", "re-set-up-right-after-completion", "same-set-up-announced-again", "rebuild:later-set-up-uses-configured-timeout", "rebuild:from-finished-gate", "repeats-then-next-set-up"}
 		},
 		CaseTimeout: 200e9,
 		InProc:      3,
@@ -808,7 +866,11 @@ func init() {
 					c09Random(c)
 				}
 			case 1:
-				c09Random(c)
+				if c.Case%12 == 1 {
+					c09RepeatsThenSetup(c)
+				} else {
+					c09Random(c)
+				}
 			case 2:
 				c09Timeout(c)
 			case 3:
